@@ -59,6 +59,8 @@ pub fn c03(seed: u64, n: usize) {
             emit_linksp("C03", &fam, &KSpec::bare(p), &q, &q2, k);
         }
     }
+    // robots with shape (both constructors): their forward and link poses are those of base * robot * tool
+    crate::props_coll::kwsd_cases("C03", &mut r, (n / 400).max(24));
 }
 
 pub fn c01(seed: u64, n: usize) {
@@ -125,6 +127,15 @@ pub fn c02(seed: u64, n: usize) {
         if done % 4 == 2 {
             let pose = ks.core().forward(&q);
             emit_invc("C02", &format!("{}/continuing", rfam), &ks, &pose, &q, Some(&q));
+        }
+        // a parallelogram on top: its answers are edited after the solver's own check and must still reproduce the pose
+        if done % 8 == 3 {
+            let mut ks3 = ks.clone();
+            let d = r.below(6); let mut c = r.below(6); if c == d { c = (c + 1) % 6; }
+            ks3.stack.push(Wrap::P(*r.pick(&[0.5, -1.0, 2.0, -0.7]), d, c));
+            let pose3 = ks3.build().forward(&q);
+            emit_invc("C02", &format!("{}/para", rfam), &ks3, &pose3, &q, Some(&q));
+            emit_inv("C02", &format!("{}/para", rfam), &ks3, &pose3, Some(&q));
         }
         // the position-only solver is a hand-duplicated copy of the same formulas: the originating J1..J5 come back
         if done % 4 == 1 {
